@@ -52,6 +52,8 @@ type hop struct {
 	PC      int       `json:"pc,omitempty"`
 	Size    int       `json:"size,omitempty"`
 	Iter    *iterSpec `json:"iter,omitempty"`
+	Pin     bool      `json:"pin,omitempty"`   // append: ask for the entry block to be pinned
+	Fault   bool      `json:"fault,omitempty"` // append/publish: the store refuses every block write during this operation
 }
 
 // access controller refusing a set of identities (by public key)
@@ -125,6 +127,7 @@ type obsRaw struct {
 	Time      int
 	Store     []blockRaw
 	Written   string // cid of the (last) block this operation handed to Dag().Add, even if already stored
+	Refused   string // cid of the (first) block the store refused during this operation (injected outage)
 }
 
 func hashesOf(es []iface.IPFSLogEntry) []string {
@@ -220,6 +223,7 @@ type histRun struct {
 	w        *world
 	// classification of what happened, for coverage statistics
 	forks, merges, tiesPresent, boundedJoins, denied, panics int
+	faulted                                                  int // operations run while the store refused writes
 	nEntries                                                 int
 	inImpl                                                   bool // true while a library call is executing
 	noOracle                                                 bool // replayed copy used as an oracle: no nested oracles
@@ -464,9 +468,22 @@ func (h *histRun) exec() {
 				before := rep.log.GetEntries().Slice()
 				headsBefore := hashesOf(rep.log.Heads().Slice())
 				h.inImpl = true
-				e, err := rep.log.Append(ctx, []byte(o.Payload), &ipfslog.AppendOptions{PointerCount: o.PC})
+				w.dag.failAdd = o.Fault
+				e, err := rep.log.Append(ctx, []byte(o.Payload), &ipfslog.AppendOptions{PointerCount: o.PC, Pin: o.Pin})
+				w.dag.failAdd = false
 				h.inImpl = false
 				ob.Class = classifyErr(err)
+				if o.Fault {
+					h.faulted++
+					if err == nil {
+						h.fail("C17", "acknowledged-write-stored", "C17:append-acknowledged-without-block", "Append returned success although the store refused the block write", i)
+					} else if ob.Class == "errdenied" {
+						ob.Class = "errother" // refused by the access controller before the write was attempted: nothing happened either
+					}
+				}
+				if o.Pin && err == nil && (len(w.dag.pins) == 0 || w.dag.pins[len(w.dag.pins)-1] != e.GetHash()) {
+					h.fail("C17", "pinned-append-pins", "C17:pin-not-requested", "Append with Pin did not pin the entry block", i)
+				}
 				if err == nil {
 					ob.Entry = e
 					w.created = append(w.created, e)
@@ -549,9 +566,17 @@ func (h *histRun) exec() {
 				w.reps[o.R].ident = o.Ident
 			case "publish":
 				h.inImpl = true
+				w.dag.failAdd = o.Fault
 				_, err := w.reps[o.R].log.ToMultihash(ctx)
+				w.dag.failAdd = false
 				h.inImpl = false
 				ob.Class = classifyErr(err)
+				if o.Fault {
+					h.faulted++
+					if err == nil {
+						h.fail("C17", "acknowledged-write-stored", "C17:manifest-acknowledged-without-block", "ToMultihash returned a hash although the store refused the block write", i)
+					}
+				}
 			case "iter":
 				h.execIter(o, i, &ob)
 			}
@@ -583,6 +608,9 @@ func (h *histRun) exec() {
 		}
 		if n := len(w.dag.writes); n > 0 {
 			ob.Written = w.dag.writes[n-1].String()
+		}
+		if len(w.dag.refused) > 0 {
+			ob.Refused = w.dag.refused[0].String()
 		}
 		h.monitorStore(i, storeBefore)
 		// C05: append-only
@@ -956,6 +984,9 @@ func (h *histRun) ranks() *histRanks {
 		if ob.Written != "" {
 			r.hashes.add(ob.Written)
 		}
+		if ob.Refused != "" {
+			r.hashes.add(ob.Refused)
+		}
 	}
 	for _, id := range h.w.idents {
 		r.keys.add(string(id.PublicKey))
@@ -1027,7 +1058,19 @@ func (h *histRun) coq() string {
 	for i, o := range h.ops {
 		ob := h.obs[i]
 		var op string
-		switch o.Kind {
+		kind := o.Kind
+		if o.Fault && (kind == "append" || kind == "publish") {
+			kind += "fail"
+		}
+		switch kind {
+		case "publishfail":
+			op = fmt.Sprintf("OFail %s", coqNat(o.R))
+		case "appendfail":
+			hh := 0
+			if ob.Refused != "" {
+				hh = r.hashes.rank(ob.Refused)
+			}
+			op = fmt.Sprintf("OAppendFail %s %s %s %s", coqNat(o.R), coqN(r.payloads[o.Payload]), coqZ(int64(o.PC)), coqN(hh))
 		case "new":
 			var deny []int
 			for _, d := range o.Deny {
